@@ -124,7 +124,7 @@ def write_evidence(prop, tier, master, batch, n_violations, known_hits, wall, ex
         },
         "assumptions": [
             "pre-emption only at Python line events in tucan/, the antlr4 ATN simulators/DFA/PredictionContext, random.py and at call events elsewhere in antlr4/networkx/igraph; C code is atomic (as under the GIL)",
-            "graph objects are private to one client thread; inputs (texts) and all process-global state are shared",
+            "graph objects are private to one client thread except in shared-object runs (objects made by the warm-up, handed to serialize/canonicalize/write by all clients); inputs (texts) and all process-global state are shared",
             "references are recomputed from the tree under test: a cold process, hash seed 0, one client, no tracing, no faults",
             "a clean batch is evidence, not proof",
         ],
